@@ -76,7 +76,7 @@ def run(ctx):
         return
     ctx.saw(f)
     pv = prog.prov(f)
-    spec = T.load_spec(os.environ.get("ESSB_REPO", F.REPO))
+    spec = T.load_spec(ctx.repo)
     BYTE = r"\*?\(<std::slice::Iter<'a, T> as std::iter::Iterator>::next\(slice::iter\(bytes\)\) as Some\)\.0"
     OPC = re.compile(r"^Eq\(" + BYTE + r", <T as std::convert::Into<U>>::into\(<essential_asm::op::Op as essential_asm::op::ToOpcode>::to_opcode\(essential_asm::op::Op::(\w+)\{essential_asm::op::(\w+)::(\w+)\{.*\}\}\)\)\)$")
     OPC2 = re.compile(r"^Eq\(<T as std::convert::Into<U>>::into\(<essential_asm::op::Op as essential_asm::op::ToOpcode>::to_opcode\(essential_asm::op::Op::(\w+)\{essential_asm::op::(\w+)::(\w+)\{.*\}\}\)\), " + BYTE + r"\)$")
